@@ -236,7 +236,7 @@ def fresh(seed=0, auto_executor=True):
     determ.install()
     loop = VLoop(auto_executor=auto_executor)
     loop.install()
-    determ.reset(seed, loop)
+    determ.reset(seed, loop, epoch=determ.EPOCH)      # a check may have moved the epoch (C16 set_now)
     loop.arm_watchdog(int(__import__('os').environ.get('VERIF_WATCHDOG_S', '60')))
     return loop
 
